@@ -554,6 +554,8 @@ thread_harness!(thread_u32_faults, u32, true, 0, false, covers_faults, 4);
 thread_harness!(thread_unit, (), false, 0, true, covers_plain, 4);
 // @ob C05 thorough thread_over_aligned fns=thread::spawn,JoinHandle::join,Tsm::value_offset,Tsm::layout_thread_shared_memory bound="as thread_u32, result type #[repr(align(64))] struct (over-aligned)" timeout=3000 mem=16 replay=none
 thread_harness!(thread_over_aligned, Over, false, 0, true, covers_plain, 4);
+// @ob C06 thorough thread_over_aligned fns=Tsm::init,Tsm::dealloc,Tsm::get_layout bound="as C05 thread_over_aligned: the join state of an over-aligned result type is freed with the layout it was allocated with" timeout=3000 mem=16 replay=none
+// @ob C06 thorough thread_unit fns=Tsm::init,Tsm::dealloc bound="as C05 thread_unit (zero-sized result)" timeout=3000 mem=16 replay=none
 // @ob C05 thorough thread_u128 fns=thread::spawn,JoinHandle::join bound="as thread_u32, result type u128" timeout=3000 mem=16 replay=none
 thread_harness!(thread_u128, u128, false, 0, true, covers_plain, 4);
 // @ob C05 thorough thread_u32_spurious2 fns=wait_until_finished,futex_wait_fast bound="as thread_u32 with panic, plus at most two spurious futex returns" timeout=3400 mem=20 replay=none
